@@ -1697,6 +1697,14 @@ pub fn c19(ctx: &mut Ctx) {
             ctx.fail("abs! is not the n-fold abstraction", &[line.clone()]);
         }
     }
+    // the public constant UD is the variable with index 0 (found untied by the mutation analysis of tools/mutate.py)
+    {
+        let r = ctx.op("udconst");
+        ctx.nontrivial("udconst");
+        if r != "0" || UD != Var(0) {
+            ctx.fail("the constant UD is not the variable with index 0", &["udconst".to_string()]);
+        }
+    }
     // abs! with counts around the powers of two a narrower counter would wrap at (seed a19: the count cast to u16)
     for &m in [255usize, 256, 257, 65535, 65536, 65537, 70000].iter() {
         for t in [Var(1), app(Var(0), abs(Var(2)))] {
